@@ -236,6 +236,12 @@ def oracle_kernelrim(case):
     if type(g).__name__ not in ("MI", "KLGEMINI") or getattr(g, "ovo", False):
         raise Violation(f"{label}: KernelRIM trains with {type(g).__name__}(ovo={getattr(g, 'ovo', None)}), documented objective is the mutual information")
     bk = s["base_kernel"]
+    if bk["form"] == "named":
+        # the named base kernel with its parameters == a callable computing exactly that kernel (training included)
+        kw = est.get_params(deep=False)
+        twin = type(est)(**dict(kw, base_kernel=lambda A, B: pairwise_kernels(A, B, metric=bk["name"], **bk["params"]),
+                                base_kernel_params=None))
+        compare_fits(label, [E.build(s, X)[0], twin], [(X, None), (X, None)], ["named base_kernel", "equivalent callable"])
     return {"nontrivial": bool(bk["params"] or bk["name"] != "linear"), "classes": ["KernelRIM:" + bk["form"] + ":" + bk["name"]]}
 
 
